@@ -18,6 +18,8 @@ value spec  : plain JSON, or a dict with "$":
    {"$":"wd","v":n}           pendulum.WeekDay(n)
    {"$":"call","o":spec,"m":"meth","a":[...],"kw":{...}}        nested call (atomic w.r.t. op numbering)
    {"$":"tuple","v":[...]}
+   {"$":"parse","s":"...","kw":{...}}                           pendulum.parse
+   {"$":"pcall","n":"name","a":[...],"kw":{...}}                pendulum.<name>(...)
 
 op : [fname, ...args]
    ["get", obj, attr]            ["call", obj, meth, args, kwargs]
@@ -137,6 +139,13 @@ def build(spec, env: Env | None = None):
         return getattr(o, spec["m"])(*build(spec.get("a", []), env), **build(spec.get("kw", {}), env))
     if t == "tuple":
         return tuple(build(spec["v"], env))
+    if t == "parse":
+        kw = dict(spec.get("kw", {}))
+        if "tz" in kw:
+            kw["tz"] = _zone(kw["tz"])
+        return pendulum.parse(spec["s"], **kw)
+    if t == "pcall":
+        return getattr(pendulum, spec["n"])(*build(spec.get("a", []), env), **build(spec.get("kw", {}), env))
     raise ValueError("unknown spec %r" % (spec,))
 
 
